@@ -18,51 +18,50 @@
 EXTENDS Naturals, Sequences, FiniteSets, TLC
 
 CONSTANTS MaxTps, PoisonsResponse,
-          Rich      \* TRUE: every value class of every key; FALSE: a reduced grid
+          Grid      \* "full": every value class of every key; "small": a reduced grid; "tiny": only the keys
+                    \* that decide interpretability and location (for multi-tracepoint responses)
 
 Fields == <<"stage", "method_name", "span", "snapshot", "log_msg", "condition", "fire_count", "fire_period",
             "frame_type", "watches", "metrics", "loc">>
 
+Rich == Grid = "full"
+Tiny == Grid = "tiny"
 Values(f) ==
     CASE f = "stage" -> IF Rich THEN {"absent", "line_start", "line_end", "line_capture", "method_start", "method_end",
                                       "method_capture", "bogus"}
-                                ELSE {"absent", "line_end", "method_start", "bogus"}
+                        ELSE IF Tiny THEN {"absent", "bogus", "method_start"}
+                        ELSE {"absent", "line_end", "method_start", "bogus"}
       [] f = "method_name" -> {"absent", "present"}
-      [] f = "span" -> IF Rich THEN {"absent", "line", "method", "bogus"} ELSE {"absent", "line", "method"}
-      [] f = "snapshot" -> IF Rich THEN {"absent", "collect", "no_collect", "bogus"} ELSE {"absent", "no_collect"}
-      [] f = "log_msg" -> {"absent", "present"}
-      [] f = "condition" -> IF Rich THEN {"absent", "blank", "true", "false"} ELSE {"absent", "false"}
-      [] f = "fire_count" -> IF Rich THEN {"absent", "2", "-1", "bad"} ELSE {"absent", "2"}
-      [] f = "fire_period" -> IF Rich THEN {"absent", "0", "bad"} ELSE {"absent", "0"}
-      [] f = "frame_type" -> IF Rich THEN {"absent", "all_frame", "no_frame", "bogus"} ELSE {"absent", "no_frame"}
-      [] f = "watches" -> {0, 1}
-      [] f = "metrics" -> {0, 1, 2}
+      [] f = "span" -> IF Rich THEN {"absent", "line", "method", "bogus"} ELSE IF Tiny THEN {"absent"}
+                       ELSE {"absent", "line", "method"}
+      [] f = "snapshot" -> IF Rich THEN {"absent", "collect", "no_collect", "bogus"} ELSE IF Tiny THEN {"absent"}
+                           ELSE {"absent", "no_collect"}
+      [] f = "log_msg" -> IF Tiny THEN {"present"} ELSE {"absent", "present"}
+      [] f = "condition" -> IF Rich THEN {"absent", "blank", "true", "false"} ELSE IF Tiny THEN {"absent"}
+                            ELSE {"absent", "false"}
+      [] f = "fire_count" -> IF Rich THEN {"absent", "2", "-1", "bad"} ELSE IF Tiny THEN {"2"} ELSE {"absent", "2"}
+      [] f = "fire_period" -> IF Rich THEN {"absent", "0", "bad"} ELSE IF Tiny THEN {"0"} ELSE {"absent", "0"}
+      [] f = "frame_type" -> IF Rich THEN {"absent", "all_frame", "no_frame", "bogus"} ELSE IF Tiny THEN {"absent"}
+                             ELSE {"absent", "no_frame"}
+      [] f = "watches" -> IF Tiny THEN {1} ELSE {0, 1}
+      [] f = "metrics" -> IF Tiny THEN {0, 1} ELSE {0, 1, 2}
       [] f = "loc" -> {"L1", "L2"}             \* which of two source locations the tracepoint is placed on
 
 VARIABLES row,     \* the tracepoint being built: field -> value (partial)
           k,       \* index of the next field to choose
-          resp     \* completed tracepoints of the response, in order
+          resp,    \* completed tracepoints of the response, in order
+          exp      \* what each completed tracepoint means (derived, kept so that a behaviour carries its expectation)
 
-vars == <<row, k, resp>>
+vars == <<row, k, resp, exp>>
 
-Init == row = [f \in {} |-> 0] /\ k = 1 /\ resp = <<>>
+Init == row = [f \in {} |-> 0] /\ k = 1 /\ resp = <<>> /\ exp = <<>>
 
 Choose(v) ==
     /\ k <= Len(Fields) /\ Len(resp) < MaxTps
     /\ v \in Values(Fields[k])
     /\ row' = [f \in DOMAIN row \cup {Fields[k]} |-> IF f = Fields[k] THEN v ELSE row[f]]
     /\ k' = k + 1
-    /\ UNCHANGED resp
-
-NextTp ==
-    /\ k = Len(Fields) + 1
-    /\ resp' = Append(resp, row)
-    /\ row' = [f \in {} |-> 0] /\ k' = 1
-
-Next == (k <= Len(Fields) /\ \E v \in Values(Fields[k]) : Choose(v)) \/ NextTp
-        \/ (Len(resp) = MaxTps /\ UNCHANGED vars)
-
-Spec == Init /\ [][Next]_vars
+    /\ UNCHANGED <<resp, exp>>
 
 ---------------------------------------------------------------------------
 (* what one tracepoint means *)
@@ -106,6 +105,18 @@ Installed(rs) ==
     IF PoisonsResponse /\ \E i \in 1..Len(rs) : ~Interpretable(rs[i])
       THEN {}
       ELSE {i \in 1..Len(rs) : Interpretable(rs[i])}
+
+NextTp ==
+    /\ k = Len(Fields) + 1
+    /\ resp' = Append(resp, row)
+    /\ exp' = Append(exp, [kind |-> LocKind(row), interp |-> Interpretable(row), effects |-> Effects(row),
+                           fires |-> {h \in 1..3 : FiresAt(row, h)}, deferred |-> Deferred(row)])
+    /\ row' = [f \in {} |-> 0] /\ k' = 1
+
+Next == (k <= Len(Fields) /\ \E v \in Values(Fields[k]) : Choose(v)) \/ NextTp
+        \/ (Len(resp) = MaxTps /\ UNCHANGED vars)
+
+Spec == Init /\ [][Next]_vars
 
 Complete(r) == DOMAIN r = {Fields[i] : i \in 1..Len(Fields)}
 
